@@ -1,0 +1,21 @@
+//go:build verif
+
+package osutil
+
+// Contracts for govc (contract-based deductive verification, see /verif/DESIGN.md).
+// Comment-only: with the tag off this file is not compiled, with it on it adds no code.
+// The file-system model (fs, res, data) is declared in /verif/contracts/std/os.spec.
+
+//@ pure content(s int, p string) string = data(s, res(s, p))
+
+//@ func CopyFile
+//@   modifies fs
+//@   ensures dest: result1 == nil ==> content(fs, destPath) == old(content(fs, srcPath)) && res(fs, destPath) != nil
+//@   ensures src_intact: result1 == nil ==> res(fs, srcPath) == old(res(fs, srcPath)) && content(fs, srcPath) == old(content(fs, srcPath))
+//@   ensures distinct: result1 == nil ==> old(res(fs, destPath)) != old(res(fs, srcPath))
+//@   ensures err: result1 != nil && old(res(fs, srcPath)) != nil ==> res(fs, srcPath) == old(res(fs, srcPath)) && content(fs, srcPath) == old(content(fs, srcPath))
+
+//@ func MoveFile
+//@   modifies fs
+//@   ensures dest: err == nil && old(res(fs, srcPath)) != nil ==> content(fs, destPath) == old(content(fs, srcPath)) && res(fs, destPath) != nil
+//@   ensures fail: err != nil && old(res(fs, srcPath)) != nil ==> res(fs, srcPath) == old(res(fs, srcPath)) && content(fs, srcPath) == old(content(fs, srcPath))
